@@ -11,6 +11,8 @@ import (
 
 func init() { families["maxage"] = runMaxAge }
 
+var maMethods = []string{"GET", "GET", "HEAD", "POST", "PUT", "PATCH", "DELETE", "OPTIONS", "TRACE", "CONNECT", "get", "Head", "", "PURGE", "PROPFIND", "GETS"}
+
 type hline struct{ k, v string }
 
 func coqHeaders(lines []hline) string {
@@ -177,7 +179,7 @@ var maxageCorpus = [][]hline{
 func runMaxAge(seed uint64, n int, tier string, out string, replay string) {
 	rnd := hx.NewRand(seed)
 	sum := hx.NewSummary("maxage", seed)
-	sum.Rule = "one case = one upstream header set (0-3 Cache-Control lines of 1-4 directives with casing/spacing variants incl. U+017F, near-miss names, qualified forms, numeric corner values; Set-Cookie absent/empty/value/several; Age valid/negative/signed/non-numeric/huge; noise headers; shuffled), run through the real getCacheMaxAge; hand-made corpus first; non-trivial = has a Cache-Control line; distinct by the exact header lines"
+	sum.Rule = "one case = one upstream header set (0-3 Cache-Control lines of 1-4 directives with casing/spacing variants incl. U+017F, near-miss names, qualified forms, numeric corner values; Set-Cookie absent/empty/value/several; Age valid/negative/signed/non-numeric/huge; noise headers; shuffled), run through the real getCacheMaxAge, and one request method from a pool of 15 (GET/HEAD, the other standard methods, case variants, extension methods, empty) through requestIsPass; hand-made corpus first; non-trivial = has a Cache-Control line; distinct by the exact header lines"
 	header := "From Coq Require Import List NArith ZArith.\nImport ListNotations.\nFrom Pike Require Import Base.Bytes Model.MaxAge Corr.C03Corr.\n"
 	w := hx.NewCaseWriter(out, "maxage", header, "list ma_case", "check_cases", 250, sum)
 	distinct := hx.NewDistinct()
@@ -187,8 +189,11 @@ func runMaxAge(seed uint64, n int, tier string, out string, replay string) {
 			h.Add(l.k, l.v)
 		}
 		got := server.VerifGetCacheMaxAge(h)
-		term := fmt.Sprintf("{| ma_headers := %s; ma_impl := %s |}", coqHeaders(lines), hx.Z(int64(got)))
-		rep := map[string]interface{}{"headers": lines2json(lines), "impl_max_age": got}
+		method := maMethods[rnd.Intn(len(maMethods))]
+		pass := server.VerifRequestIsPass(&http.Request{Method: method})
+		term := fmt.Sprintf("{| ma_headers := %s; ma_impl := %s; ma_method := %s; ma_pass := %s |}", coqHeaders(lines), hx.Z(int64(got)), hx.Str(method), hx.Bool(pass))
+		rep := map[string]interface{}{"headers": lines2json(lines), "impl_max_age": got, "method": method, "request_is_pass": pass}
+		sum.Count("method:" + method)
 		w.Add(term, rep)
 		sum.Evaluations++
 		hasCC := false
